@@ -100,7 +100,7 @@ def half_cases():
     return C
 
 
-def measure(sizes, dr_values=(1.0,), with_images=True, nonneg_max_n=60, only=None, direction=None):
+def measure(sizes, dr_values=(1.0,), with_images=True, nonneg_max_n=60, only=None, direction=None, with_transform=True):
     """returns {key: relative max error in the region away from axis and edge}"""
     import abel
     out = {}
@@ -119,7 +119,8 @@ def measure(sizes, dr_values=(1.0,), with_images=True, nonneg_max_n=60, only=Non
                     try:
                         if direction == "forward":
                             raise StopIteration
-                        rec = quiet(f, rows, direction="inverse", dr=dr, **opts)
+                        quiet(f, rows, direction="inverse", dr=dr, **opts)
+                        rec = quiet(f, rows, direction="inverse", dr=dr, **opts)          # the repeated identical call is judged
                         out[f"inverse|{name}|{fam}|n={n}|dr={dr}"] = float((np.abs(rec - amp * src[None, :]) / amp)[:, sl].max() / np.abs(src).max())
                     except StopIteration:
                         pass
@@ -127,6 +128,7 @@ def measure(sizes, dr_values=(1.0,), with_images=True, nonneg_max_n=60, only=Non
                         out[f"inverse|{name}|{fam}|n={n}|dr={dr}"] = f"exc:{type(e).__name__}"
                     if fwd and direction != "inverse":
                         try:
+                            quiet(f, amp * src[None, :], direction="forward", dr=dr, **opts)
                             pr = quiet(f, amp * src[None, :], direction="forward", dr=dr, **opts)
                             out[f"forward|{name}|{fam}|n={n}|dr={dr}"] = float((np.abs(pr - amp * proj[None, :]) / amp)[:, sl].max() / np.abs(proj).max())
                         except Exception as e:
@@ -182,7 +184,38 @@ def measure(sizes, dr_values=(1.0,), with_images=True, nonneg_max_n=60, only=Non
                         put("inverse", key, err(rec, src))
                     except Exception as e:
                         out[f"{direction or 'inverse'}|{key}|zone=ring|n={n}"] = f"exc:{type(e).__name__}"
+    if with_transform:
+        # whole images through abel.Transform: every quadrant is transformed (no symmetrisation), so quadrant-dependent and
+        # call-history-dependent errors (memory-cache hits within one call) are visible; 2-D Gaussian, closed form
+        tm = [("basex", {}), ("daun", {}), ("direct", dict(backend="python")), ("hansenlaw", {}), ("hansenlaw", dict(hold_order=1)),
+              ("onion_bordas", {}), ("onion_peeling", {}), ("two_point", {}), ("three_point", {}), ("daun", dict(degree=3)),
+              ("basex", dict(sigma=1.5, correction=True))]
+        for n in [s for s in sizes if s <= 101]:
+            for dr in dr_values:
+                c0 = n - 1
+                ax = (np.arange(2 * n - 1) - c0) * dr
+                s0 = (n - 1) * dr / 4
+                g = np.exp(-(ax[:, None] ** 2 + ax[None, :] ** 2) / s0 ** 2)
+                src, proj = g, s0 * np.sqrt(np.pi) * g
+                sl = region(n)
+                cols = np.r_[c0 - np.arange(n)[sl], c0 + np.arange(n)[sl]]
+                for meth, opts in tm:
+                    if only is not None and only != f"Transform/{meth}/{_fmt_opts(opts)}":
+                        continue
+                    for d, (a, b) in (("inverse", (proj, src)), ("forward", (src, proj))):
+                        if direction not in (None, d) or (d == "forward" and meth not in ("basex", "daun", "direct", "hansenlaw")):
+                            continue
+                        key = f"{d}|Transform/{meth}/{_fmt_opts(opts)}|gauss2d|n={n}|dr={dr}"
+                        try:
+                            res = quiet(abel.Transform, a, method=meth, direction=d, transform_options=dict(opts, dr=dr)).transform
+                            out[key] = float(np.abs(res - b)[:, cols].max() / b.max())
+                        except Exception as e:
+                            out[key] = f"exc:{type(e).__name__}"
     return out
+
+
+def _fmt_opts(opts):
+    return ",".join(f"{k}={v}" for k, v in sorted(opts.items())) or "default"
 
 
 def load_baseline():
@@ -244,7 +277,8 @@ def replay_case(key):
     """re-measure one case key; returns its error"""
     d, meth, fam, tags = _parse(key)
     n = int(tags["n"])
-    m = measure([n], dr_values=(float(tags.get("dr", 1.0)),), with_images="ring_b" in tags, only=meth)
+    m = measure([n], dr_values=(float(tags.get("dr", 1.0)),), with_images="ring_b" in tags, only=meth,
+                with_transform=meth.startswith("Transform/"))
     return m.get(key)
 
 
